@@ -210,11 +210,11 @@ class Abs:
             return {self._key(self.ev(k)): self.ev(v) for k, v in zip(e.keys, e.values)}
         if isinstance(e, ast.Attribute):
             dn = dotted(e)
+            if dn in self.consts:
+                return self.consts[dn]
             if dn in ("np.pi", "numpy.pi", "math.pi"):
                 from .algebra import sym as _sym
                 return _sym("pi")
-            if dn in self.consts:
-                return self.consts[dn]
             if dn in ("np.inf", "numpy.inf", "math.inf", "np.Inf"):
                 return float("inf")
             if dn in ("np.newaxis", "numpy.newaxis"):
@@ -372,7 +372,7 @@ class Abs:
 
     def compare(self, op, a, b):
         if isinstance(op, ast.Is):
-            return a is b or (a == b and (a is None or isinstance(a, bool)) and type(a) is type(b))
+            return a is b or ((a is None or isinstance(a, bool)) and type(a) is type(b) and a == b)
         if isinstance(op, ast.IsNot):
             return not self.compare(ast.Is(), a, b)
         if isinstance(op, ast.In):
@@ -452,6 +452,8 @@ class Abs:
             if getattr(a, "_abs_native", False) or getattr(b, "_abs_native", False) or type(a).__name__ == "Rat" or type(b).__name__ == "Rat":
                 raise Undecided("operator %s between %s and %s is not modelled" % (type(op).__name__, type(a).__name__, type(b).__name__))
             raise Raised("TypeError")
+        except (ValueError, ZeroDivisionError, OverflowError) as e:
+            raise Raised("%s(%s)" % (type(e).__name__, e))
         raise Undecided("binary operator %s" % type(op).__name__)
 
     def getattr(self, base, attr, node=None):
@@ -542,6 +544,8 @@ class Abs:
                 kw[k.arg] = self.ev(k.value)
         if dn in self.summaries:
             return _lib(self.summaries[dn], args, kw)
+        if isinstance(e.func, ast.Attribute) and isinstance(e.func.value, ast.Call) and dotted(e.func.value.func) == "super":
+            return self._super_call(e.func.value, e.func.attr, args, kw)
         if dn == "isinstance":
             return self.isinstance(args[0], e.args[1])
         if dn == "len":
@@ -847,6 +851,10 @@ class Abs:
                 setter = self.summaries.get("set:%s.%s" % (base.cls, t.attr))
                 if setter is not None:
                     setter(base, v)
+                elif base is self.self_obj and self.self_class is not None and t.attr not in base.attrs \
+                        and self.self_class[0].resolve_setter(self.self_class[1], t.attr) is not None:
+                    # a property of the object's own class: the assignment runs its setter
+                    self._inline(self.self_class[0].resolve_setter(self.self_class[1], t.attr), base, [v], {})
                 else:
                     base.attrs[t.attr] = v
             else:
@@ -1022,6 +1030,25 @@ class Abs:
             return fi, "getter"
         return None, None
 
+    def _super_call(self, sup, attr, args, kw):
+        """super().m(...) / super(C, self).m(...): the method of the next class after the defining one in the concrete class's ancestry"""
+        if self.self_class is None or self.self_obj is None:
+            raise Undecided("super() without a known concrete class")
+        repo, ci = self.self_class
+        here = dotted(sup.args[0]) if sup.args else getattr(self, "cur_cls", None)
+        if here is None:
+            raise Undecided("super() outside a method whose class is known")
+        chain = repo.mro(ci)
+        names = [c.name for c in chain]
+        if here not in names:
+            raise Undecided("super(): %s is not an ancestor of %s" % (here, ci.name))
+        for c in chain[names.index(here) + 1:]:
+            if attr in c.methods:
+                return self._inline(c.methods[attr], self.self_obj, args, kw)
+        if attr == "__init__":
+            return None         # object.__init__
+        raise Raised("AttributeError(super has no %s)" % attr)
+
     def _inline(self, fi, self_obj, args, kw):
         """interpret a function / method of the package that the rule gave no summary for (extracted helpers)"""
         if self.depth >= INLINE_DEPTH:
@@ -1033,6 +1060,7 @@ class Abs:
             raise Undecided("classmethod %s is not modelled" % fi.qualname)
         bound = self_obj if (fi.cls is not None and not static) else None
         sub = self._sub({}, bound, fi.module)
+        sub.cur_cls = fi.cls
         kind, out = sub._run_bound(fi.node, args, kw, skip_self=bound is not None)
         self.budget = sub.budget
         if kind == "raise":
